@@ -153,4 +153,28 @@ def rejects (kind : AggKind) (shape : List Nat) (finite : Bool) : Bool :=
     | .trimmedMean b => m < 2 * b + 1 || !finite
     | .krum f k => !finite || m < f + 3 || m < k
 
+/-! ### constructor validation: which CONFIGURATIONS are refused with ValueError when the aggregator is built
+      (`pref_vector_to_weighting`, `_ConstantWeighting.__init__`, `GradDrop.__init__`, `_CAGradWeighting.__init__`,
+      `_KrumWeighting.__init__`, `TrimmedMean.__init__`); a refused configuration never reaches `forward` -/
+
+inductive CtorSpec where
+  | prefVector (ndim : Option Nat)      -- UPGrad / DualProj / AlignedMTL / ConFIG: `None` or a tensor of that ndim
+  | constant (ndim : Nat)               -- Constant(weights)
+  | graddrop (leakNdim : Option Nat)    -- GradDrop(leak = None | tensor)
+  | cagrad (cNegative : Bool)           -- CAGrad(c): is `c < 0`?
+  | krum (f k : Int)                    -- Krum(n_byzantine, n_selected)
+  | trimmedMean (b : Int)               -- TrimmedMean(trim_number)
+  deriving Repr
+
+/-- `true` = the constructor raises ValueError -/
+def ctorRejects : CtorSpec → Bool
+  | .prefVector none => false
+  | .prefVector (some d) => d ≠ 1
+  | .constant d => d ≠ 1
+  | .graddrop none => false
+  | .graddrop (some d) => d ≠ 1
+  | .cagrad neg => neg
+  | .krum f k => f < 0 || k < 1
+  | .trimmedMean b => b < 0
+
 end Tjd.Agg
